@@ -260,10 +260,29 @@ func (r *scopeRegistry) Subscope(parent *scope, prefix string, tags map[string]s
 	verifYield("registry.Subscope:locked")
 
 	if s, ok := r.lockedLookup(subscopeBucket, sanitizedKey); ok {
-		if _, ok = r.lockedLookup(subscopeBucket, unsanitizedKey); !ok {
-			subscopeBucket.s[unsanitizedKey] = s
+		if !s.closed.Load() || s.testScope {
+			if _, ok = r.lockedLookup(subscopeBucket, unsanitizedKey); !ok {
+				subscopeBucket.s[unsanitizedKey] = s
+			}
+			return s
 		}
-		return s
+
+		// n.b. The scope registered under the sanitized key has been closed
+		//      (it was reached through tags that only sanitize to its key, or
+		//      was closed since the lookup above): as above, report it one
+		//      last time and let a new, functional scope take its place.
+		switch {
+		case parent.reporter != nil:
+			s.report(parent.reporter)
+		case parent.cachedReporter != nil:
+			s.cachedReport()
+		}
+		for _, key := range []string{unsanitizedKey, sanitizedKey} {
+			if curr, ok := subscopeBucket.s[key]; ok && curr == s {
+				delete(subscopeBucket.s, key)
+			}
+		}
+		s.clearMetrics()
 	}
 
 	allTags := mergeRightTags(parent.tags, tags)
